@@ -15,8 +15,18 @@ func evalTerm(t *Term, c *evalCtx) uint64 {
 	if v, ok := c.memo[t.id]; ok {
 		return v
 	}
+	for _, a := range t.args {
+		evalTerm(a, c)
+	}
+	r := evalNode(t, c)
+	c.memo[t.id] = r
+	return r
+}
+
+// evalNode computes the value of t from the memoized values of its arguments.
+func evalNode(t *Term, c *evalCtx) uint64 {
 	var r uint64
-	a := func(i int) uint64 { return evalTerm(t.args[i], c) }
+	a := func(i int) uint64 { return c.memo[t.args[i].id] }
 	sx := func(v uint64, w int) int64 {
 		if w >= 64 {
 			return int64(v)
@@ -177,7 +187,6 @@ func evalTerm(t *Term, c *evalCtx) uint64 {
 	if t.w > 0 {
 		r &= mask(t.w)
 	}
-	c.memo[t.id] = r
 	return r
 }
 
